@@ -2,6 +2,7 @@ package vsched
 
 import (
 	"sort"
+	"time"
 )
 
 // Timer is a virtual-clock timer owned by the scheduler.
@@ -110,6 +111,12 @@ func SetHorizon(d int64) {
 // the threads they wake), the system settles, and the clock ends exactly at now+d.
 func Advance(d int64) {
 	if !Active() {
+		if RaceMode {
+			if d > int64(10*time.Millisecond) {
+				d = int64(10 * time.Millisecond)
+			}
+			time.Sleep(time.Duration(d))
+		}
 		return
 	}
 	r := rt
